@@ -390,7 +390,7 @@ func init() {
 		Rules: []Rule{
 			{ID: "R-C06-1", Doc: "must-pass-through: later stages and success returns dominated by ok(VerifyLayoutExpiration(layout))", Min: 20, Run: ruleC06_1},
 			{ID: "R-C06-2", Doc: "shape of the expiry check: constant UTC layout, parse error propagated, past => failing", Min: 5, Run: ruleC06_2},
-			a1Rule(2, "in_toto.VerifyLayoutExpiration"),
+			a1Rule(1, "@expiry"),
 		}})
 }
 
@@ -399,16 +399,21 @@ func ruleC06_1(c *Ctx) {
 	for _, e := range c.entryPoints() {
 		fn := fname(e.f)
 		var exp ssa.CallInstruction
-		for _, call := range callsIn(e.f, "in_toto.VerifyLayoutExpiration") {
-			if k, _ := c.layoutValue(e, call.Common().Args[0], call, 0); k != "" {
+		for _, call := range allCalls(e.f) {
+			g := call.Common().StaticCallee()
+			li := c.expiryCheckerLike(g, 0)
+			if li < 0 {
+				continue
+			}
+			if k, _ := c.layoutValue(e, call.Common().Args[li], call, 0); k != "" {
 				exp = call
 			}
 		}
 		if exp == nil {
-			c.bad(R, fn, "expiry check", e.f.Pos(), "no call of VerifyLayoutExpiration on the verified layout")
+			c.bad(R, fn, "expiry check", e.f.Pos(), "no call of an expiry check (a function that parses layout.Expires and compares it with the clock, e.g. VerifyLayoutExpiration) on the verified layout")
 			continue
 		}
-		c.ok(R, fn, "expiry check", exp.Pos(), "VerifyLayoutExpiration(layout) with layout from the verified payload")
+		c.ok(R, fn, "expiry check", exp.Pos(), calleeName(exp)+"(layout) with layout from the verified payload")
 		for _, s := range c.trustingCalls(e) {
 			if s == exp {
 				continue
@@ -421,7 +426,7 @@ func ruleC06_1(c *Ctx) {
 				// pure Layout->Layout rewriting may come before or after (Expires is not substituted: R-C18-1)
 				continue
 			}
-			c.check(c.okCallAt(exp, s.Block()), R, fn, "sink call "+calleeName(s), s.Pos(), "dominated by nil-error edge of VerifyLayoutExpiration",
+			c.check(c.okCallAt(exp, s.Block()), R, fn, "sink call "+calleeName(s), s.Pos(), "dominated by nil-error edge of the expiry check",
 				"stage is reachable without a successful expiry check of the layout")
 		}
 		c.helperObligations(R, e, exp, "VerifyLayoutExpiration", func(in ssa.CallInstruction) bool { return calleeName(in) == "in_toto.SubstituteParameters" })
@@ -431,18 +436,135 @@ func ruleC06_1(c *Ctx) {
 	}
 }
 
+// expiryChecker: f has a Layout parameter, returns only an error, parses that parameter's Expires with time.Parse
+// and uses the clock (time.Now / Until / Since or a time.Time parameter). Returns the Layout parameter index or -1.
+func (c *Ctx) expiryChecker(f *ssa.Function) int {
+	if f == nil || f.Blocks == nil || f.Pkg != c.pkg("in_toto") {
+		return -1
+	}
+	if rs := resultTypes(f); len(rs) != 1 || rs[0] != "error" {
+		return -1
+	}
+	li := -1
+	hasTime := false
+	for i, prm := range f.Params {
+		switch typeStr(prm.Type()) {
+		case "in_toto.Layout":
+			li = i
+		case "time.Time":
+			hasTime = true
+		}
+	}
+	if li < 0 {
+		return -1
+	}
+	parses := false
+	for _, call := range callsIn(f, "time.Parse") {
+		if org(call.Common().Args[1]) == fmt.Sprintf("p%d.Expires", li) {
+			parses = true
+		}
+	}
+	if !parses {
+		return -1
+	}
+	if hasTime || len(callsIn(f, "time.Now", "time.Until", "time.Since")) > 0 {
+		return li
+	}
+	return -1
+}
+
+// expiryCheckerLike: an expiry checker, or a function whose every success return is guaranteed by a call of one on
+// its own Layout parameter (a wrapper). Returns the Layout parameter index or -1.
+func (c *Ctx) expiryCheckerLike(g *ssa.Function, depth int) int {
+	if li := c.expiryChecker(g); li >= 0 {
+		return li
+	}
+	if g == nil || g.Blocks == nil || g.Pkg != c.pkg("in_toto") || depth > 2 {
+		return -1
+	}
+	li := -1
+	for i, prm := range g.Params {
+		if typeStr(prm.Type()) == "in_toto.Layout" {
+			li = i
+		}
+	}
+	if li < 0 {
+		return -1
+	}
+	if rs := resultTypes(g); len(rs) != 1 || rs[0] != "error" {
+		return -1
+	}
+	for _, call := range allCalls(g) {
+		h := call.Common().StaticCallee()
+		if h == nil || h == g {
+			continue
+		}
+		hi := c.expiryCheckerLike(h, depth+1)
+		if hi < 0 {
+			continue
+		}
+		if resolve(call.Common().Args[hi], call) == ssa.Value(g.Params[li]) && c.helperGuarantees(g, call) {
+			return li
+		}
+	}
+	return -1
+}
+
 func ruleC06_2(c *Ctx) {
 	const R = "R-C06-2"
-	f := c.lookup("in_toto.VerifyLayoutExpiration")
-	if f == nil {
-		c.undecided(R, "in_toto.VerifyLayoutExpiration", "anchor", 0, "function not found")
-		return
+	n := 0
+	for _, f := range c.srcFuncs("in_toto") {
+		if c.expiryChecker(f) >= 0 {
+			n++
+			c.ruleC06_2For(f)
+		}
 	}
+	if n == 0 {
+		c.undecided(R, "in_toto", "expiry check", 0, "no function parses layout.Expires and compares it with the clock")
+	}
+}
+
+func (c *Ctx) ruleC06_2For(f *ssa.Function) {
+	const R = "R-C06-2"
+	li := c.expiryChecker(f)
 	fn := fname(f)
-	parse := firstCall(f, "time.Parse")
+	var parse ssa.CallInstruction
+	for _, call := range callsIn(f, "time.Parse") {
+		if org(call.Common().Args[1]) == fmt.Sprintf("p%d.Expires", li) {
+			parse = call
+		}
+	}
 	if parse == nil {
 		c.bad(R, fn, "time.Parse", f.Pos(), "expiry is not parsed with time.Parse")
 		return
+	}
+	// the time compared with is the clock at the time of the call: time.Now() in the checker itself, or a time.Time
+	// parameter that every call site fills with a fresh time.Now()
+	freshParam := map[ssa.Value]bool{}
+	for i, prm := range f.Params {
+		if typeStr(prm.Type()) != "time.Time" {
+			continue
+		}
+		fresh, why := true, ""
+		node := c.CG.Nodes[f]
+		if node == nil || len(node.In) == 0 {
+			fresh, why = false, "no known caller"
+		} else {
+			for _, in := range node.In {
+				if in.Site == nil {
+					fresh, why = false, "called dynamically"
+					continue
+				}
+				pc, _ := producer(in.Site.Common().Args[i], in.Site)
+				if pc == nil || calleeName(pc) != "time.Now" {
+					fresh, why = false, "at the call in "+fname(in.Site.Parent())+" the argument is "+short(org(in.Site.Common().Args[i]))
+				}
+			}
+		}
+		c.check(fresh, R, fn, "the reference time parameter "+prm.Name()+" is the clock at the time of the call", f.Pos(), "every call site passes time.Now()", "the time the expiry is compared with is not read from the clock when the layout is verified: "+why)
+		if fresh {
+			freshParam[prm] = true
+		}
 	}
 	layoutStr, isConst := constString(parse.Common().Args[0])
 	c.check(isConst, R, fn, "constant time layout", parse.Pos(), layoutStr, "time layout is not a constant")
@@ -462,7 +584,7 @@ func ruleC06_2(c *Ctx) {
 		c.check(len(missing) == 0 && zone == "", R, fn, "layout is a full UTC timestamp", parse.Pos(), layoutStr,
 			fmt.Sprintf("time layout %q: missing tokens %v, zone token %q (only ...Z timestamps are well-formed)", layoutStr, missing, zone))
 	}
-	c.check(org(parse.Common().Args[1]) == "p0.Expires", R, fn, "parsed field", parse.Pos(), "layout.Expires", "parses "+org(parse.Common().Args[1]))
+	c.ok(R, fn, "parsed field", parse.Pos(), "layout.Expires")
 	// sibling agreement with validateLayout
 	if vl := c.lookup("in_toto.validateLayout"); vl != nil {
 		if p2 := firstCall(vl, "time.Parse"); p2 != nil {
@@ -526,7 +648,13 @@ func ruleC06_2(c *Ctx) {
 			continue
 		}
 		args := call.Common().Args
-		isNow := func(v ssa.Value) bool { pc, _ := producer(v, call); return pc != nil && calleeName(pc) == "time.Now" }
+		isNow := func(v ssa.Value) bool {
+			if freshParam[resolve(v, call)] {
+				return true
+			}
+			pc, _ := producer(v, call)
+			return pc != nil && calleeName(pc) == "time.Now"
+		}
 		var expiredWhenTrue, recognised bool
 		switch {
 		case n == "(time.Time).After" && isNow(args[0]) && resolve(args[1], call) == t: // now.After(t)
@@ -1299,5 +1427,98 @@ func (c *Ctx) optionWiring(e entry, ri *stageCall) {
 		v, at = gs.arg(2)
 		_, isP := resolve(v, at).(*ssa.Parameter)
 		c.check(isP && typeStr(v.Type()) == "string", R, fn, "the summary link is named by the stepName parameter", gs.site().Pos(), org(v), "summary name is "+short(org(v)))
+	}
+}
+
+// R-C05-5: the counted links reach the agreement check as they were verified. Between the threshold check and
+// ReduceStepsMetadata (inclusive) nothing writes through the verified link map, except VerifySublayouts' replacement
+// of a sublayout by its summary (R-C08-3). Decided with the A4 effects analysis, the verified map being the owned memory.
+func init() {
+	if p := registry["C05"]; p != nil {
+		p.Rules = append(p.Rules, Rule{ID: "R-C05-5", Doc: "verified links are not modified before the agreement check", Min: 4, Run: ruleC05_5})
+		p.Explanation += " (R-C05-5) no function that receives the verified link map before or at ReduceStepsMetadata writes through it (A4 effects analysis with the map as owned memory), except VerifySublayouts' replacement of a sublayout by its summary link: the agreement check compares the links as they were signed."
+	}
+}
+
+func ruleC05_5(c *Ctx) {
+	const R = "R-C05-5"
+	for _, e := range c.entryPoints() {
+		fn := fname(e.f)
+		red := c.stage(e.f, "in_toto.ReduceStepsMetadata")
+		if red == nil {
+			c.bad(R, fn, "ReduceStepsMetadata", e.f.Pos(), "the agreement check is never called")
+			continue
+		}
+		fr := e.f
+		if g := red.inner(); g != nil {
+			fr = g
+		}
+		isVerified := func(v ssa.Value, at ssa.Instruction) bool {
+			n, i := c.deepProducer(v, at)
+			return i == 0 && (n == "in_toto.VerifyLinkSignatureThesholds" || n == "in_toto.VerifySublayouts")
+		}
+		n := 0
+		for _, call := range allCalls(fr) {
+			if _, isDefer := call.(*ssa.Defer); isDefer {
+				continue
+			}
+			// only calls that can run before the agreement check has finished
+			if call != red.call && instrDominates(red.call, call) {
+				continue
+			}
+			g := call.Common().StaticCallee()
+			args := callArgs(call)
+			ctx := make([]pc, len(args))
+			tainted := false
+			for i, a := range args {
+				if hasRefs(a.Type()) && isVerified(a, call) {
+					ctx[i] = pc{isRefType(a.Type()), true}
+					tainted = true
+				}
+			}
+			if !tainted {
+				continue
+			}
+			n++
+			name := calleeName(call)
+			if g == nil || g.Blocks == nil {
+				c.undecided(R, fn, "call "+name+" with the verified links", call.Pos(), "callee is not analysable")
+				continue
+			}
+			a := newA4(c.Prog)
+			s := a.analyse(g, ctx, nil)
+			var bad []string
+			for _, w := range s.writes {
+				if name == "in_toto.VerifySublayouts" && w.fn == g {
+					if _, isMU := w.instr.(*ssa.MapUpdate); isMU {
+						continue // the summary link replaces the sublayout (shape decided by R-C08-3)
+					}
+				}
+				bad = append(bad, fmt.Sprintf("%s at %s (%s)", w.path, c.pos(w.instr.Pos()), strings.Join(w.chain, " -> ")))
+			}
+			c.check(len(bad) == 0, R, fn, "call "+name+" leaves the verified links as they are", call.Pos(), fmt.Sprintf("%d function contexts analysed, no write through the verified link map", len(a.memo)),
+				"the verified links are modified before the agreement check has compared them: "+strings.Join(bad, "; ")+" — links that differ can be made equal (or equal ones different) before reflect.DeepEqual sees them")
+		}
+		// direct writes in the frame itself
+		for _, b := range fr.Blocks {
+			for _, in := range b.Instrs {
+				if instrDominates(red.call, in) {
+					continue
+				}
+				var base ssa.Value
+				switch x := in.(type) {
+				case *ssa.MapUpdate:
+					base = x.Map
+				case *ssa.Store:
+					if _, isAlloc := addrRoot(x.Addr).(*ssa.Alloc); !isAlloc {
+						base = x.Addr
+					}
+				}
+				if base != nil && derives(base, func(v ssa.Value) bool { return isVerified(v, in) }, false) {
+					c.bad(R, fn, "direct write into the verified links", in.Pos(), "the pipeline writes into the verified link map before the agreement check")
+				}
+			}
+		}
+		c.check(n >= 2, R, fn, "calls that receive the verified links up to the agreement check", red.call.Pos(), fmt.Sprintf("%d calls analysed", n), fmt.Sprintf("only %d calls receive the verified links", n))
 	}
 }
